@@ -66,7 +66,7 @@ def parseRow (sec path : String) (ws : List String) : Option Field := do
   let ty ← (kvOf ws "ty").bind parseTy
   let oe ← (kvOf ws "oe").bind bool01
   let rej ← (kvOf ws "rej").bind parseRej
-  pure { sec := sec, path := path, key := "", env := "", ty := ty, omitEmpty := oe, hidden := false, load := lk, save := sk,
+  pure { sec := sec, path := path, key := "", env := "", ty := ty, omitEmpty := oe, hidden := false, sameField := true, load := lk, save := sk,
          dflt := parseConst ((kvOf ws "dflt").getD "unknown"), omitC := parseConst ((kvOf ws "omit").getD "unknown"), rej := rej }
 
 def parseOut (ws : List String) : Option Output := do
